@@ -1,5 +1,6 @@
 (* C09 — proofs about Model/Compaction.v *)
 From RipV Require Import Base.Prelude Model.Compaction.
+From Coq Require Import Sorting.Sorted Sorting.Permutation.
 
 (* ---------- small list facts ---------- *)
 Lemma map_flat_map_single {A B C} (f : A -> list B) (g : B -> C) (h : A -> C) (l : list A) :
@@ -323,3 +324,845 @@ Lemma demo_cut_points :
   = [(4, 5, 6, false, None); (2, 2, 3, true, Some 9)]
   /\ map eid (filter (fun e => match ebody e with BCkpt _ _ 2 _ => true | _ => false end) demo_log) = [8; 9].
 Proof. split; vm_compute; reflexivity. Qed.
+
+(* ====================================================================================================== *)
+(* ---------- cut points as a map over targets (which depend on the messages only) ---------- *)
+Definition target_at (ms : list (N * N)) (ord : N) : list (N * N * N) :=
+  if (ord =? 0) || (nlen ms <? ord) then []
+  else match nth_error ms (N.to_nat (ord - 1)) with None => [] | Some (s, id) => [(ord, s, id)] end.
+Definition targets (K : consts) (stride lim : N) (ms : list (N * N)) : list (N * N * N) :=
+  flat_map (target_at ms)
+           (cut_ords (N.to_nat (clamp (k_limit_lo K) (k_limit_hi K) lim)) ((nlen ms / stride) * stride) stride).
+Definition t_seq (t : N * N * N) : N := snd (fst t).
+Definition cut_of (K : consts) (l : list ev) (t : N * N * N) : cutpt :=
+  let '(ord, s, id) := t in mk_cut ord s id (cut_lookup K l s).
+Definition plan_of (t : N * N * N) : plan := let '(ord, s, id) := t in {| pl_ord := ord; pl_seq := s; pl_mid := id |}.
+
+Lemma cut_point_at_targets K l ord : cut_point_at K l ord = map (cut_of K l) (target_at (msgs l) ord).
+Proof.
+  unfold cut_point_at, target_at. destruct ((ord =? 0) || (nlen (msgs l) <? ord)); [reflexivity|].
+  destruct (nth_error (msgs l) (N.to_nat (ord - 1))) as [[s id]|]; reflexivity.
+Qed.
+
+Lemma cut_points_targets K stride lim l :
+  cut_points K stride lim l = map (cut_of K l) (targets K stride lim (msgs l)).
+Proof.
+  unfold cut_points, targets.
+  induction (cut_ords (N.to_nat (clamp (k_limit_lo K) (k_limit_hi K) lim)) (nlen (msgs l) / stride * stride) stride)
+    as [|o r IH]; cbn [flat_map map]; [reflexivity|].
+  rewrite map_app, IH, cut_point_at_targets. reflexivity.
+Qed.
+
+Lemma to_plan_cut_of K l t : to_plan (cut_of K l t) = plan_of t.
+Proof. destruct t as [[ord s] id]. reflexivity. Qed.
+Lemma cp_seq_cut_of K l t : cp_seq (cut_of K l t) = t_seq t.
+Proof. destruct t as [[ord s] id]. reflexivity. Qed.
+Lemma pl_seq_plan_of t : pl_seq (plan_of t) = t_seq t.
+Proof. destruct t as [[ord s] id]. reflexivity. Qed.
+
+(* "a checkpoint frame for seq s exists", as a boolean *)
+Definition has_ck (l : list ev) (s : N) : bool := existsb (fun k => ck_to k =? s) (ckpts l).
+
+Lemma cp_done_cut_of K l t : cp_done (cut_of K l t) = has_ck l (t_seq t).
+Proof.
+  destruct t as [[ord s] id]. unfold cut_of, t_seq. cbn [fst snd].
+  pose proof (proj1 (mk_cut_spec (ckpts l) ord s id _ (cut_lookup_inv K l s))) as H. cbn zeta in H.
+  apply eq_true_iff_eq. rewrite H. unfold has_ck. rewrite existsb_exists.
+  split; intros [k [Hk Hs]]; exists k; (split; [exact Hk|]); [apply N.eqb_eq; exact Hs | apply N.eqb_eq in Hs; exact Hs].
+Qed.
+
+(* the undone targets, latest first: what auto / schedule plan from *)
+Definition undone (K : consts) (stride : N) (l : list ev) : list (N * N * N) :=
+  filter (fun t => negb (has_ck l (t_seq t))) (targets K stride (k_plan_limit K) (msgs l)).
+
+Lemma filter_map_comm {A B} (f : A -> B) (p : B -> bool) (l : list A) :
+  filter p (map f l) = map f (filter (fun x => p (f x)) l).
+Proof.
+  induction l as [|x l IH]; cbn [map filter]; [reflexivity|]. destruct (p (f x)); cbn [map]; rewrite IH; reflexivity.
+Qed.
+
+Lemma plan_cuts_undone K stride maxnew l :
+  plan_cuts K stride maxnew l = firstn (N.to_nat maxnew) (map plan_of (undone K stride l)).
+Proof.
+  unfold plan_cuts, undone. rewrite cut_points_targets, filter_map_comm, map_map. f_equal.
+  erewrite map_ext by (intros t; apply to_plan_cut_of).
+  f_equal. apply filter_ext. intros t. rewrite cp_done_cut_of. reflexivity.
+Qed.
+
+(* ====================================================================================================== *)
+(* ---------- valid streams: frame seqs strictly increase (C01 gives seq = position) ---------- *)
+Definition valid (l : list ev) : Prop := StronglySorted N.lt (map eseq l).
+
+Lemma ssorted_app_one (l : list N) (x : N) :
+  StronglySorted N.lt l -> Forall (fun y => y < x) l -> StronglySorted N.lt (l ++ [x]).
+Proof.
+  induction l as [|a l IH]; intros Hs Hf; cbn [app].
+  - constructor; constructor.
+  - inversion Hs as [|a' l' Hs' Ha]; subst. inversion Hf as [|a' l' Hax Hf']; subst.
+    constructor; [apply IH; assumption|]. apply Forall_app. split; [exact Ha|]. constructor; [exact Hax|constructor].
+Qed.
+
+Lemma ssorted_last_max (l : list N) (x : N) :
+  StronglySorted N.lt (l ++ [x]) -> Forall (fun y => y < x) l.
+Proof.
+  induction l as [|a l IH]; intros Hs; [constructor|]. cbn [app] in Hs.
+  inversion Hs as [|a' l' Hs' Ha]; subst. constructor; [|apply IH; exact Hs'].
+  apply Forall_app in Ha. destruct Ha as [_ Ha]. inversion Ha; assumption.
+Qed.
+
+Lemma next_seq_bound l : valid l -> Forall (fun y => y < next_seq l) (map eseq l).
+Proof.
+  unfold valid, next_seq. intros H. destruct (rev l) as [|e r] eqn:E.
+  - apply (f_equal (@rev ev)) in E. rewrite rev_involutive in E. subst l. constructor.
+  - apply (f_equal (@rev ev)) in E. rewrite rev_involutive in E. cbn [rev] in E. subst l.
+    rewrite map_app in *. cbn [map] in *. apply Forall_app. split.
+    + apply ssorted_last_max in H. eapply Forall_impl; [|exact H]. cbn. intros; lia.
+    + constructor; [lia|constructor].
+Qed.
+
+Lemma valid_append s b : valid (log s) -> valid (log (append s b)).
+Proof.
+  intros H. unfold append, valid. cbn [log]. rewrite map_app. cbn [map eseq].
+  apply ssorted_app_one; [exact H|]. apply next_seq_bound, H.
+Qed.
+
+Lemma valid_st0 : valid (log st0).
+Proof. unfold valid. cbn. constructor; constructor. Qed.
+
+(* projections under append *)
+Lemma msgs_app a b : msgs (a ++ b) = msgs a ++ msgs b.
+Proof. unfold msgs. apply flat_map_app. Qed.
+Lemma msg_full_app a b : msg_full (a ++ b) = msg_full a ++ msg_full b.
+Proof. unfold msg_full. apply flat_map_app. Qed.
+Lemma ckpts_app a b : ckpts (a ++ b) = ckpts a ++ ckpts b.
+Proof. unfold ckpts. apply flat_map_app. Qed.
+
+Definition is_msg (b : body) : bool := match b with BMsg _ _ => true | _ => false end.
+
+Lemma msgs_append_nonmsg s b : is_msg b = false -> msgs (log (append s b)) = msgs (log s).
+Proof.
+  intros H. unfold append. cbn [log]. rewrite msgs_app. cbn. destruct b; try discriminate; cbn; apply app_nil_r.
+Qed.
+Lemma msg_full_append_nonmsg s b : is_msg b = false -> msg_full (log (append s b)) = msg_full (log s).
+Proof.
+  intros H. unfold append. cbn [log]. rewrite msg_full_app. cbn. destruct b; try discriminate; cbn; apply app_nil_r.
+Qed.
+
+Lemma msgs_of_full l : map fst (msg_full l) = msgs l.
+Proof.
+  induction l as [|e l IH]; [reflexivity|]. unfold msg_full, msgs in *. cbn [flat_map].
+  rewrite map_app, IH. destruct (ebody e); reflexivity.
+Qed.
+
+(* message seqs are a subsequence of the frame seqs *)
+Lemma ssorted_sub (l : list ev) :
+  StronglySorted N.lt (map eseq l) ->
+  StronglySorted N.lt (map (fun m => fst (fst m)) (msg_full l))
+  /\ Forall (fun x => In x (map eseq l)) (map (fun m => fst (fst m)) (msg_full l)).
+Proof.
+  induction l as [|e l IH]; intros H; [split; constructor|].
+  cbn [map] in H. inversion H as [|a l' Hs Ha]; subst. destruct (IH Hs) as [IH1 IH2].
+  assert (Hincl : Forall (fun x => In x (map eseq (e :: l))) (map (fun m => fst (fst m)) (msg_full l))).
+  { eapply Forall_impl; [|exact IH2]. cbn. intros; auto. }
+  unfold msg_full in *. cbn [flat_map]. destruct (ebody e); cbn [app map fst]; try (split; assumption).
+  split.
+  - constructor; [exact IH1|]. rewrite Forall_forall in *. intros x Hx. apply Ha, IH2, Hx.
+  - constructor; [left; reflexivity | exact Hincl].
+Qed.
+
+Lemma valid_msgs_sorted l : valid l -> StronglySorted N.lt (map (fun m => fst (fst m)) (msg_full l)).
+Proof. intros H. apply ssorted_sub, H. Qed.
+
+(* upper_bound on a strictly sorted list, at the key of the i-th element, is i + 1 *)
+Lemma upper_bound_nth (ms : list (N * N * (N * N))) : forall i m,
+  StronglySorted N.lt (map (fun m => fst (fst m)) ms) ->
+  nth_error ms i = Some m -> upper_bound ms (fst (fst m)) = S i.
+Proof.
+  unfold upper_bound. induction ms as [|x ms IH]; intros i m Hs Hn; [destruct i; discriminate|].
+  cbn [map] in Hs. inversion Hs as [|a l' Hs' Ha]; subst.
+  destruct i as [|i]; cbn [nth_error] in Hn.
+  - injection Hn as ->. cbn [filter]. rewrite N.leb_refl. cbn [length]. f_equal.
+    assert (E : filter (fun m0 => fst (fst m0) <=? fst (fst m)) ms = []).
+    { clear IH Hs Hs'. induction ms as [|y ms IHm]; [reflexivity|]. cbn [map] in Ha.
+      inversion Ha as [|a l' Hy Ha']; subst. cbn [filter].
+      destruct (fst (fst y) <=? fst (fst m)) eqn:E; [apply N.leb_le in E; lia|]. apply IHm, Ha'. }
+    rewrite E. reflexivity.
+  - cbn [filter].
+    assert (Hlt : fst (fst x) < fst (fst m)).
+    { rewrite Forall_forall in Ha. apply Ha. apply in_map_iff. exists m. split; [reflexivity|].
+      eapply nth_error_In, Hn. }
+    destruct (fst (fst x) <=? fst (fst m)) eqn:E; [|apply N.leb_gt in E; lia].
+    cbn [length]. f_equal. apply IH; assumption.
+Qed.
+
+(* ---------- one planned cut succeeds when its message is in the job's snapshot ---------- *)
+Definition ck_frame (stride : N) (a : N) (p : plan) : body := BCkpt (rule_stride stride) a (pl_seq p) (Some (pl_mid p)).
+Definition covers (v : summ) (p : plan) : Prop :=
+  su_to_seq v = pl_seq p /\ su_to_mid v = Some (pl_mid p) /\ su_present v = true /\ su_kind v = 2.
+
+Lemma run_cut_ok K snap stride s p x :
+  StronglySorted N.lt (map (fun m => fst (fst m)) (msg_full snap)) ->
+  In (pl_seq p, pl_mid p, x) (msg_full snap) ->
+  exists v s2,
+    run_cut K snap stride s p
+    = Ok (s2, {| cr_ck := last_id s2; cr_art := fresh_art s; cr_seq := pl_seq p; cr_mid := pl_mid p |})
+    /\ s2 = append {| log := log s; arts := arts s ++ [(fresh_art s, v)] |} (ck_frame stride (fresh_art s) p)
+    /\ covers v p.
+Proof.
+  intros Hs Hin. apply In_nth_error in Hin. destruct Hin as [i Hn].
+  pose proof (upper_bound_nth (msg_full snap) i _ Hs Hn) as Hub. cbn [fst] in Hub.
+  unfold run_cut.
+  destruct (select_base K (log s) snap (pl_seq p)) as [b base_to].
+  assert (Hfin : forall base bootstrap note used,
+    exists v s2,
+      match nth_error (msg_full snap) (upper_bound (msg_full snap) (pl_seq p) - 1) with
+      | None => Err 20
+      | Some (ls, lid, _) =>
+        if (ls =? pl_seq p) && (lid =? pl_mid p) then
+          let slice := map snd (skipn (upper_bound (msg_full snap) (if (bootstrap : bool) then 0 else base_to))
+                                      (firstn (upper_bound (msg_full snap) (pl_seq p)) (msg_full snap))) in
+          let '(s1, a) := put_art s {| su_to_seq := pl_seq p; su_to_mid := Some (pl_mid p); su_base := base;
+                                       su_note := note; su_kind := 2; su_slice := slice; su_base_used := used;
+                                       su_present := true |} in
+          let s2 := append s1 (BCkpt (rule_stride stride) a (pl_seq p) (Some (pl_mid p))) in
+          Ok (s2, {| cr_ck := last_id s2; cr_art := a; cr_seq := pl_seq p; cr_mid := pl_mid p |})
+        else Err 21
+      end
+      = Ok (s2, {| cr_ck := last_id s2; cr_art := fresh_art s; cr_seq := pl_seq p; cr_mid := pl_mid p |})
+      /\ s2 = append {| log := log s; arts := arts s ++ [(fresh_art s, v)] |} (ck_frame stride (fresh_art s) p)
+      /\ covers v p).
+  { intros base bootstrap note used.
+    rewrite Hub. replace (S i - 1)%nat with i by lia. rewrite Hn.
+    rewrite !N.eqb_refl. cbn [andb].
+    cbv beta iota zeta delta [put_art].
+    eexists. eexists. split; [reflexivity|]. split; [reflexivity|].
+    unfold covers. cbn. auto. }
+  destruct (option_map ck_art b) as [a|]; [|exact (Hfin None true 0 false)].
+  destruct (art_read s a) as [v|]; [|exact (Hfin (Some a) true 2 false)].
+  destruct (su_kind v =? 1); [exact (Hfin (Some a) true 1 false) | exact (Hfin (Some a) false 0 true)].
+Qed.
+
+(* ---------- planned.sort_by(to_seq, to_message_id) ---------- *)
+Definition le_seq (a b : plan) : Prop := pl_seq a <= pl_seq b.
+
+Lemma plan_insert_perm p l : Permutation (plan_insert p l) (p :: l).
+Proof.
+  induction l as [|q r IH]; cbn [plan_insert]; [apply Permutation_refl|].
+  destruct (plan_leb p q); [apply Permutation_refl|].
+  eapply perm_trans; [apply perm_skip, IH | apply perm_swap].
+Qed.
+Lemma plan_sort_perm l : Permutation (plan_sort l) l.
+Proof.
+  induction l as [|p l IH]; cbn [plan_sort fold_right]; [constructor|].
+  eapply perm_trans; [apply plan_insert_perm | apply perm_skip, IH].
+Qed.
+Lemma plan_insert_sorted p l : StronglySorted le_seq l -> StronglySorted le_seq (plan_insert p l).
+Proof.
+  induction l as [|q r IH]; intros H; cbn [plan_insert]; [constructor; constructor|].
+  inversion H as [|q' r' Hs Hq]; subst.
+  destruct (plan_leb p q) eqn:E; unfold plan_leb in E.
+  - constructor; [exact H|]. assert (Hpq : le_seq p q) by (unfold le_seq; lia).
+    constructor; [exact Hpq|]. eapply Forall_impl; [|exact Hq]. unfold le_seq in *. cbn. intros; lia.
+  - constructor; [apply IH, Hs|].
+    eapply Permutation_Forall; [apply Permutation_sym, plan_insert_perm|].
+    constructor; [unfold le_seq; lia | exact Hq].
+Qed.
+Lemma plan_sort_sorted l : StronglySorted le_seq (plan_sort l).
+Proof.
+  induction l as [|p l IH]; cbn [plan_sort fold_right]; [constructor|]. apply plan_insert_sorted, IH.
+Qed.
+
+(* ---------- the artifact store ---------- *)
+Lemma maxN_ge l k : In k l -> k <= maxN l.
+Proof.
+  induction l as [|x l IH]; intros H; [contradiction|]. cbn [maxN fold_right]. fold (maxN l).
+  destruct H as [->|H]; [lia|]. apply IH in H. lia.
+Qed.
+Lemma art_get_app_fresh m a v rest :
+  (forall k, In k (map fst m) -> k <> a) -> art_get a (m ++ (a, v) :: rest) = Some v.
+Proof.
+  induction m as [|[k w] m IH]; intros H; cbn [app art_get].
+  - rewrite N.eqb_refl. reflexivity.
+  - destruct (k =? a) eqn:E; [apply N.eqb_eq in E; exfalso; apply (H k); [left; reflexivity | exact E]|].
+    apply IH. intros k' Hk'. apply H. right. exact Hk'.
+Qed.
+Lemma fresh_art_not_key s k : In k (map fst (arts s)) -> k <> fresh_art s.
+Proof. intros H. apply maxN_ge in H. unfold fresh_art. lia. Qed.
+
+(* ---------- all planned cuts, in order ---------- *)
+Definition mk_created (s2 : st) (a : N) (p : plan) : created :=
+  {| cr_ck := last_id s2; cr_art := a; cr_seq := pl_seq p; cr_mid := pl_mid p |}.
+
+Inductive cuts_done (stride : N) : st -> list plan -> st -> list created -> Prop :=
+| cd_nil s : cuts_done stride s [] s []
+| cd_cons s p v ps s' made :
+    covers v p ->
+    cuts_done stride (append {| log := log s; arts := arts s ++ [(fresh_art s, v)] |} (ck_frame stride (fresh_art s) p))
+              ps s' made ->
+    cuts_done stride s (p :: ps) s'
+              (mk_created (append {| log := log s; arts := arts s ++ [(fresh_art s, v)] |} (ck_frame stride (fresh_art s) p))
+                          (fresh_art s) p :: made).
+
+Lemma run_cuts_ok K snap stride : forall ps s acc,
+  StronglySorted N.lt (map (fun m => fst (fst m)) (msg_full snap)) ->
+  (forall p, In p ps -> exists x, In (pl_seq p, pl_mid p, x) (msg_full snap)) ->
+  exists s' made, run_cuts K snap stride s ps acc = (s', acc ++ made, None) /\ cuts_done stride s ps s' made.
+Proof.
+  induction ps as [|p ps IH]; intros s acc Hs Hin; cbn [run_cuts].
+  - exists s, []. rewrite app_nil_r. split; [reflexivity | constructor].
+  - destruct (Hin p (or_introl eq_refl)) as [x Hx].
+    destruct (run_cut_ok K snap stride s p x Hs Hx) as [v [s2 [Hr [Hs2 Hc]]]].
+    rewrite Hr. destruct (IH s2 (acc ++ [mk_created s2 (fresh_art s) p]) Hs) as [s' [made [Hrun Hd]]].
+    { intros q Hq. apply Hin. right. exact Hq. }
+    exists s', (mk_created s2 (fresh_art s) p :: made). split.
+    + unfold mk_created in *. rewrite Hrun, <- app_assoc. reflexivity.
+    + subst s2. apply cd_cons; assumption.
+Qed.
+
+(* what a finished sequence of cuts looks like in the stream and in the artifact store *)
+Definition ck_for (stride : N) (s' : st) (e : ev) (p : plan) : Prop :=
+  exists a v, ebody e = ck_frame stride a p /\ art_read s' a = Some v /\ covers v p.
+Definition created_for (c : created) (e : ev) : Prop :=
+  cr_ck c = eid e /\ exists r, ebody e = BCkpt r (cr_art c) (cr_seq c) (Some (cr_mid c)).
+
+Lemma last_id_append s b : last_id (append s b) = fresh_id (log s).
+Proof. unfold last_id, append. cbn [log]. rewrite rev_app_distr. reflexivity. Qed.
+
+Lemma cuts_done_spec stride s ps s' made :
+  cuts_done stride s ps s' made ->
+  exists frames extra,
+    log s' = log s ++ frames /\ arts s' = arts s ++ extra
+    /\ Forall2 (ck_for stride s') frames ps
+    /\ Forall2 created_for made frames
+    /\ (valid (log s) -> valid (log s')).
+Proof.
+  induction 1 as [s | s p v ps s' made Hc Hd IH].
+  - exists [], []. rewrite !app_nil_r. repeat split; try constructor. auto.
+  - destruct IH as [frames [extra [Hl [Ha [Hf [Hm Hv]]]]]].
+    set (s1 := {| log := log s; arts := arts s ++ [(fresh_art s, v)] |}) in *.
+    set (e := {| eseq := next_seq (log s1); eid := fresh_id (log s1); ebody := ck_frame stride (fresh_art s) p |}).
+    exists (e :: frames), ((fresh_art s, v) :: extra).
+    assert (Hl' : log s' = log s ++ e :: frames).
+    { rewrite Hl. unfold append. cbn [log]. rewrite <- app_assoc. reflexivity. }
+    assert (Ha' : arts s' = arts s ++ (fresh_art s, v) :: extra).
+    { rewrite Ha. unfold append, s1. cbn [arts]. rewrite <- app_assoc. reflexivity. }
+    split; [exact Hl'|]. split; [exact Ha'|]. split; [|split].
+    + constructor; [|exact Hf]. exists (fresh_art s), v. split; [reflexivity|]. split; [|exact Hc].
+      unfold art_read. rewrite Ha', art_get_app_fresh by (apply fresh_art_not_key).
+      destruct Hc as [_ [_ [Hp _]]]. rewrite Hp. reflexivity.
+    + constructor; [|exact Hm]. unfold created_for, mk_created. cbn [cr_ck cr_art cr_seq cr_mid].
+      split; [apply last_id_append|]. exists (rule_stride stride). reflexivity.
+    + intros Hval. apply Hv. apply (valid_append s1). exact Hval.
+Qed.
+
+(* ---------- planned cuts are messages of the thread ---------- *)
+Lemma In_firstn {A} n (l : list A) x : In x (firstn n l) -> In x l.
+Proof. rewrite <- (firstn_skipn n l) at 2. intros H. apply in_or_app. left. exact H. Qed.
+
+Lemma targets_in K stride lim ms t :
+  In t (targets K stride lim ms) ->
+  let '(ord, s, id) := t in 1 <= ord /\ ord <= nlen ms /\ nth_error ms (N.to_nat (ord - 1)) = Some (s, id).
+Proof.
+  unfold targets. intros H. apply in_flat_map in H. destruct H as [o [_ H]]. unfold target_at in H.
+  destruct ((o =? 0) || (nlen ms <? o)) eqn:E; [contradiction|].
+  apply orb_false_iff in E. destruct E as [E0 E1]. apply N.eqb_neq in E0. apply N.ltb_ge in E1.
+  destruct (nth_error ms (N.to_nat (o - 1))) as [[s id]|] eqn:En; [|contradiction].
+  destruct H as [<-|[]]. repeat split; [lia | exact E1 | exact En].
+Qed.
+
+Lemma plan_cuts_in K stride maxnew l p :
+  In p (plan_cuts K stride maxnew l) ->
+  exists t, In t (undone K stride l) /\ p = plan_of t.
+Proof.
+  rewrite plan_cuts_undone. intros H. apply In_firstn in H. apply in_map_iff in H.
+  destruct H as [t [<- Ht]]. exists t. auto.
+Qed.
+
+Lemma plan_cuts_msgs K stride maxnew l p :
+  In p (plan_cuts K stride maxnew l) -> exists x, In (pl_seq p, pl_mid p, x) (msg_full l).
+Proof.
+  intros H. apply plan_cuts_in in H. destruct H as [[[ord s] id] [Ht ->]].
+  unfold undone in Ht. apply filter_In in Ht. destruct Ht as [Ht _].
+  apply targets_in in Ht. destruct Ht as [_ [_ Hn]]. apply nth_error_In in Hn.
+  rewrite <- msgs_of_full in Hn. apply in_map_iff in Hn. destruct Hn as [[[s' id'] x] [E Hin]].
+  cbn [fst] in E. injection E as -> ->. exists x. exact Hin.
+Qed.
+
+(* ---------- the job ---------- *)
+Lemma run_job_ok K j stride planned s1 :
+  valid (log s1) ->
+  (forall p, In p planned -> exists x, In (pl_seq p, pl_mid p, x) (msg_full (log s1))) ->
+  exists sn made,
+    run_job K j stride planned s1 = (append sn (BJobEnded j 0 made), made, None)
+    /\ cuts_done stride s1 (plan_sort planned) sn made.
+Proof.
+  intros Hv Hin. unfold run_job.
+  destruct (run_cuts_ok K (log s1) stride (plan_sort planned) s1 []) as [sn [made [Hr Hd]]].
+  - apply valid_msgs_sorted, Hv.
+  - intros p Hp. apply Hin. eapply Permutation_in; [apply plan_sort_perm | exact Hp].
+  - exists sn, made. rewrite Hr. cbn [app]. split; [reflexivity | exact Hd].
+Qed.
+
+Record auto_outcome (K : consts) (stride : N) (planned : list plan) (s s' : st) (j : N) (made : list created) : Prop := {
+  ao_log : exists e_sp frames e_end,
+      log s' = log s ++ [e_sp] ++ frames ++ [e_end]
+      /\ ebody e_sp = BJobSpawned j planned stride
+      /\ ebody e_end = BJobEnded j 0 made
+      /\ Forall2 (ck_for stride s') frames (plan_sort planned)
+      /\ Forall2 created_for made frames;
+  ao_sorted : StronglySorted le_seq (plan_sort planned) /\ Permutation (plan_sort planned) planned;
+  ao_fresh : ~ In j (job_ids (log s));
+  ao_valid : valid (log s') }.
+
+Lemma fresh_job_not_in l : ~ In (fresh_job l) (job_ids l).
+Proof. intros H. apply maxN_ge in H. unfold fresh_job in H. lia. Qed.
+
+Theorem auto_creates_planned K ostride omax odry s :
+  valid (log s) ->
+  opt_or ostride (k_default_stride K) <> 0 ->
+  opt_orb odry false = false ->
+  plan_cuts K (opt_or ostride (k_default_stride K))
+            (clamp (k_maxnew_lo K) (k_maxnew_hi K) (opt_or omax 1)) (log s) <> [] ->
+  exists s' r,
+    auto K ostride omax odry s = (s', Ok r)
+    /\ ar_status r = 2 /\ ar_err r = None /\ ar_job r = Some (fresh_job (log s))
+    /\ ar_planned r = plan_cuts K (opt_or ostride (k_default_stride K))
+                                (clamp (k_maxnew_lo K) (k_maxnew_hi K) (opt_or omax 1)) (log s)
+    /\ auto_outcome K (opt_or ostride (k_default_stride K)) (ar_planned r) s s' (fresh_job (log s)) (ar_result r).
+Proof.
+  intros Hv Hs Hd Hp. unfold auto.
+  set (stride := opt_or ostride (k_default_stride K)) in *.
+  set (maxnew := clamp (k_maxnew_lo K) (k_maxnew_hi K) (opt_or omax 1)) in *.
+  apply N.eqb_neq in Hs. rewrite Hs. rewrite Hd. unfold auto_spawn.
+  set (planned := plan_cuts K stride maxnew (log s)) in *.
+  destruct planned as [|p0 pr] eqn:Ep; [congruence|]. rewrite <- Ep. cbn [ar_job ar_planned ar_count].
+  set (j := fresh_job (log s)).
+  set (s1 := append s (BJobSpawned j planned stride)).
+  assert (Hv1 : valid (log s1)) by (apply valid_append, Hv).
+  destruct (run_job_ok K j stride planned s1 Hv1) as [sn [made [Hr Hc]]].
+  { intros p Hin. unfold s1. rewrite msg_full_append_nonmsg by reflexivity.
+    apply (plan_cuts_msgs K stride maxnew). exact Hin. }
+  rewrite Hr. eexists. eexists. split; [reflexivity|]. cbn [ar_status ar_err ar_job ar_planned ar_result].
+  repeat (split; [reflexivity|]).
+  apply cuts_done_spec in Hc. destruct Hc as [frames [extra [Hl [Ha [Hf [Hm Hvn]]]]]].
+  constructor.
+  - eexists. exists frames. eexists. split; [|split; [|split; [|split]]].
+    + unfold append at 1. cbn [log]. rewrite Hl. unfold s1, append at 1. cbn [log].
+      rewrite <- !app_assoc. reflexivity.
+    + reflexivity.
+    + reflexivity.
+    + exact Hf.
+    + exact Hm.
+  - split; [apply plan_sort_sorted | apply plan_sort_perm].
+  - apply fresh_job_not_in.
+  - apply (valid_append sn). apply Hvn, Hv1.
+Qed.
+
+(* ====================================================================================================== *)
+(* ---------- idempotence: what is left to do after one auto run ---------- *)
+Lemma cut_ords_le n : forall o stride x, In x (cut_ords n o stride) -> x <= o /\ x <> 0.
+Proof.
+  induction n as [|n IH]; intros o stride x H; cbn [cut_ords] in H; [contradiction|].
+  destruct (o =? 0) eqn:E; [contradiction|]. apply N.eqb_neq in E.
+  destruct H as [<-|H]; [lia|]. apply IH in H. lia.
+Qed.
+Lemma cut_ords_desc n : forall o stride, stride <> 0 -> StronglySorted (fun a b => b < a) (cut_ords n o stride).
+Proof.
+  induction n as [|n IH]; intros o stride Hs; cbn [cut_ords]; [constructor|].
+  destruct (o =? 0) eqn:E; [constructor|]. apply N.eqb_neq in E.
+  constructor; [apply IH, Hs|]. apply Forall_forall. intros x Hx. apply cut_ords_le in Hx. lia.
+Qed.
+
+Lemma sorted_nth_lt (ms : list (N * N)) : forall i j a b,
+  StronglySorted N.lt (map fst ms) -> nth_error ms i = Some a -> nth_error ms j = Some b -> (i < j)%nat -> fst a < fst b.
+Proof.
+  induction ms as [|x ms IH]; intros i j a b Hs Hi Hj Hlt; [destruct i; discriminate|].
+  cbn [map] in Hs. inversion Hs as [|x' l' Hs' Hx]; subst.
+  destruct j as [|j]; [lia|]. cbn [nth_error] in Hj. destruct i as [|i]; cbn [nth_error] in Hi.
+  - injection Hi as ->. rewrite Forall_forall in Hx. apply Hx. apply in_map. eapply nth_error_In, Hj.
+  - eapply IH; eauto. lia.
+Qed.
+
+Lemma targets_desc ms ords :
+  StronglySorted N.lt (map fst ms) -> StronglySorted (fun a b => b < a) ords ->
+  StronglySorted (fun a b => t_seq b < t_seq a) (flat_map (target_at ms) ords).
+Proof.
+  intros Hm. induction 1 as [|o r Hr IH Ho]; cbn [flat_map]; [constructor|].
+  unfold target_at at 1. destruct ((o =? 0) || (nlen ms <? o)) eqn:E; [exact IH|].
+  destruct (nth_error ms (N.to_nat (o - 1))) as [[s id]|] eqn:En; [|exact IH].
+  cbn [app]. constructor; [exact IH|]. apply Forall_forall. intros t Ht.
+  apply in_flat_map in Ht. destruct Ht as [o' [Ho' Ht]]. unfold target_at in Ht.
+  destruct ((o' =? 0) || (nlen ms <? o')) eqn:E'; [contradiction|].
+  destruct (nth_error ms (N.to_nat (o' - 1))) as [[s' id']|] eqn:En'; [|contradiction].
+  destruct Ht as [<-|[]]. unfold t_seq. cbn [fst snd].
+  rewrite Forall_forall in Ho. specialize (Ho o' Ho').
+  apply orb_false_iff in E'. destruct E' as [E0 _]. apply N.eqb_neq in E0.
+  change s' with (fst (s', id')). change s with (fst (s, id)).
+  eapply (sorted_nth_lt ms _ _ _ _ Hm En' En). lia.
+Qed.
+
+Lemma desc_nodup {A} (f : A -> N) (l : list A) :
+  StronglySorted (fun a b => f b < f a) l -> NoDup (map f l).
+Proof.
+  induction 1 as [|x l Hs IH Hx]; cbn [map]; constructor; [|exact IH].
+  intros Hin. apply in_map_iff in Hin. destruct Hin as [y [Hy Hin]].
+  rewrite Forall_forall in Hx. specialize (Hx y Hin). lia.
+Qed.
+
+Lemma nodup_map_filter {A} (f : A -> N) (p : A -> bool) (l : list A) : NoDup (map f l) -> NoDup (map f (filter p l)).
+Proof.
+  induction l as [|x l IH]; intros H; [constructor|]. cbn [map] in H. inversion H as [|x' l' Hn Hd]; subst.
+  cbn [filter]. destruct (p x); [|apply IH, Hd]. cbn [map]. constructor; [|apply IH, Hd].
+  intros Hin. apply Hn. apply in_map_iff in Hin. destruct Hin as [y [Hy Hin]]. apply filter_In in Hin.
+  apply in_map_iff. exists y. tauto.
+Qed.
+
+Lemma valid_msgs_fst_sorted l : valid l -> StronglySorted N.lt (map fst (msgs l)).
+Proof.
+  intros H. apply valid_msgs_sorted in H. rewrite <- msgs_of_full, map_map. exact H.
+Qed.
+
+Lemma undone_nodup K stride l : valid l -> stride <> 0 -> NoDup (map t_seq (undone K stride l)).
+Proof.
+  intros Hv Hs. unfold undone. apply nodup_map_filter. apply desc_nodup. unfold targets.
+  apply targets_desc; [apply valid_msgs_fst_sorted, Hv | apply cut_ords_desc, Hs].
+Qed.
+
+Lemma filter_not_firstn {A} (f : A -> N) : forall m (U : list A),
+  NoDup (map f U) ->
+  filter (fun t => negb (existsb (N.eqb (f t)) (map f (firstn m U)))) U = skipn m U.
+Proof.
+  induction m as [|m IH]; intros U Hn.
+  - cbn [firstn map existsb negb skipn]. induction U as [|x U IHU]; [reflexivity|]. cbn [filter]. f_equal.
+    apply IHU. cbn [map] in Hn. inversion Hn; assumption.
+  - destruct U as [|x U]; [reflexivity|]. cbn [firstn map skipn filter existsb].
+    rewrite N.eqb_refl. cbn [orb negb]. cbn [map] in Hn. inversion Hn as [|x' l' Hx Hd]; subst.
+    rewrite <- (IH U Hd). apply filter_ext_in. intros t Ht.
+    destruct (f t =? f x) eqn:E; [|reflexivity]. apply N.eqb_eq in E. exfalso. apply Hx. rewrite <- E. apply in_map, Ht.
+Qed.
+
+Lemma msgs_nonmsg l : Forall (fun e => is_msg (ebody e) = false) l -> msgs l = [].
+Proof.
+  induction 1 as [|e l He _ IH]; [reflexivity|]. unfold msgs in *. cbn [flat_map]. rewrite IH.
+  destruct (ebody e); try discriminate; reflexivity.
+Qed.
+
+Lemma frames_ckpts stride s' frames ps :
+  Forall2 (ck_for stride s') frames ps ->
+  map ck_to (ckpts frames) = map pl_seq ps /\ Forall (fun e => is_msg (ebody e) = false) frames.
+Proof.
+  induction 1 as [|e p frames ps [a [v [Hb _]]] _ [IH1 IH2]]; [split; [reflexivity|constructor]|].
+  unfold ckpts in *. cbn [flat_map]. rewrite Hb. unfold ck_frame at 1. cbn [app map ck_to]. rewrite IH1.
+  split; [reflexivity|]. constructor; [rewrite Hb; reflexivity | exact IH2].
+Qed.
+
+Lemma existsb_iff {A B} (p : A -> bool) (q : B -> bool) (l : list A) (m : list B) :
+  ((exists x, In x l /\ p x = true) <-> (exists y, In y m /\ q y = true)) -> existsb p l = existsb q m.
+Proof. intros H. apply eq_true_iff_eq. rewrite !existsb_exists. exact H. Qed.
+
+Lemma auto_outcome_after K stride planned s s' j made :
+  auto_outcome K stride planned s s' j made ->
+  msgs (log s') = msgs (log s)
+  /\ forall x, has_ck (log s') x = has_ck (log s) x || existsb (N.eqb x) (map pl_seq planned).
+Proof.
+  intros [[e_sp [frames [e_end [Hl [Hsp [Hend [Hf Hm]]]]]]] [_ Hperm] _ _].
+  apply frames_ckpts in Hf. destruct Hf as [Hck Hnm]. split.
+  - rewrite Hl, !msgs_app. rewrite (msgs_nonmsg frames Hnm).
+    unfold msgs at 2 3. cbn [flat_map]. rewrite Hsp, Hend. cbn [app]. rewrite !app_nil_r. reflexivity.
+  - intros x. unfold has_ck. rewrite Hl, !ckpts_app.
+    unfold ckpts at 2 4. cbn [flat_map]. rewrite Hsp, Hend. cbn [app]. rewrite app_nil_r.
+    rewrite existsb_app. f_equal. apply existsb_iff. split.
+    + intros [k [Hk Hx]]. apply N.eqb_eq in Hx. exists x. split; [|apply N.eqb_refl].
+      eapply Permutation_in; [apply Permutation_map, Hperm|]. rewrite <- Hck, <- Hx. apply in_map, Hk.
+    + intros [y [Hy Hx]]. apply N.eqb_eq in Hx. subst y.
+      assert (Hin : In x (map ck_to (ckpts frames))).
+      { rewrite Hck. eapply Permutation_in; [apply Permutation_sym, Permutation_map, Hperm | exact Hy]. }
+      apply in_map_iff in Hin. destruct Hin as [k [Hk Hin]]. exists k. split; [exact Hin | apply N.eqb_eq, Hk].
+Qed.
+
+(* after a completed run over `planned = first maxnew undone`, exactly the remaining undone cut points are left *)
+Theorem undone_after K stride maxnew s s' j made :
+  valid (log s) -> stride <> 0 ->
+  auto_outcome K stride (plan_cuts K stride maxnew (log s)) s s' j made ->
+  undone K stride (log s') = skipn (N.to_nat maxnew) (undone K stride (log s)).
+Proof.
+  intros Hv Hs Ho. apply auto_outcome_after in Ho. destruct Ho as [Hm Hck].
+  rewrite <- (filter_not_firstn t_seq (N.to_nat maxnew) (undone K stride (log s))) by (apply undone_nodup; assumption).
+  unfold undone at 1 3. rewrite Hm.
+  set (T := targets K stride (k_plan_limit K) (msgs (log s))).
+  assert (E : map pl_seq (plan_cuts K stride maxnew (log s)) = map t_seq (firstn (N.to_nat maxnew) (undone K stride (log s)))).
+  { rewrite plan_cuts_undone, <- !firstn_map, map_map. f_equal. apply map_ext. intros t. apply pl_seq_plan_of. }
+  rewrite <- E.
+  induction T as [|t T IH]; [reflexivity|]. cbn [filter]. rewrite Hck, negb_orb.
+  destruct (negb (has_ck (log s) (t_seq t))); cbn [andb filter]; [|exact IH].
+  destruct (negb (existsb (N.eqb (t_seq t)) (map pl_seq (plan_cuts K stride maxnew (log s))))); [f_equal|]; exact IH.
+Qed.
+
+(* repeated with nothing new to do: the call answers noop and leaves the state untouched *)
+Theorem auto_noop K ostride omax odry s :
+  opt_or ostride (k_default_stride K) <> 0 ->
+  undone K (opt_or ostride (k_default_stride K)) (log s) = [] ->
+  exists r, auto K ostride omax odry s = (s, Ok r) /\ ar_status r = 0 /\ ar_job r = None /\ ar_planned r = [] /\ ar_result r = [].
+Proof.
+  intros Hs Hu. unfold auto. apply N.eqb_neq in Hs. rewrite Hs. unfold auto_spawn.
+  rewrite plan_cuts_undone, Hu. cbn [map]. rewrite firstn_nil. cbn [ar_job].
+  eexists. split; [reflexivity|]. cbn. auto.
+Qed.
+
+Theorem sched_noop K ostride omax oblock oexec odry s :
+  opt_or ostride (k_default_stride K) <> 0 ->
+  undone K (opt_or ostride (k_default_stride K)) (log s) = [] ->
+  exists r, sched K ostride omax oblock oexec odry s = (s, Ok r) /\ sr_decision r = 0 /\ sr_job r = None /\ sr_planned r = [].
+Proof.
+  intros Hs Hu. unfold sched. apply N.eqb_neq in Hs. rewrite Hs.
+  rewrite plan_cuts_undone, Hu. cbn [map]. rewrite firstn_nil.
+  eexists. split; [reflexivity|]. cbn. auto.
+Qed.
+
+Theorem auto_second_plan K ostride omax odry s :
+  valid (log s) ->
+  opt_or ostride (k_default_stride K) <> 0 ->
+  opt_orb odry false = false ->
+  plan_cuts K (opt_or ostride (k_default_stride K))
+            (clamp (k_maxnew_lo K) (k_maxnew_hi K) (opt_or omax 1)) (log s) <> [] ->
+  forall maxnew2,
+  plan_cuts K (opt_or ostride (k_default_stride K)) maxnew2 (log (fst (auto K ostride omax odry s)))
+  = firstn (N.to_nat maxnew2)
+           (map plan_of (skipn (N.to_nat (clamp (k_maxnew_lo K) (k_maxnew_hi K) (opt_or omax 1)))
+                               (undone K (opt_or ostride (k_default_stride K)) (log s)))).
+Proof.
+  intros Hv Hs Hd Hp maxnew2.
+  destruct (auto_creates_planned K ostride omax odry s Hv Hs Hd Hp) as [s' [r [Ha [_ [_ [_ [Hpl Ho]]]]]]].
+  rewrite Ha. cbn [fst]. rewrite plan_cuts_undone. rewrite Hpl in Ho.
+  rewrite (undone_after K _ _ s s' _ _ Hv Hs Ho). reflexivity.
+Qed.
+
+Theorem auto_idempotent K ostride omax odry s :
+  valid (log s) ->
+  opt_or ostride (k_default_stride K) <> 0 ->
+  opt_orb odry false = false ->
+  (length (undone K (opt_or ostride (k_default_stride K)) (log s))
+   <= N.to_nat (clamp (k_maxnew_lo K) (k_maxnew_hi K) (opt_or omax 1)))%nat ->
+  let s' := fst (auto K ostride omax odry s) in
+  exists r', auto K ostride omax odry s' = (s', Ok r') /\ ar_status r' = 0 /\ ar_job r' = None /\ ar_result r' = [].
+Proof.
+  intros Hv Hs Hd Hlen. cbn zeta.
+  destruct (plan_cuts K (opt_or ostride (k_default_stride K))
+                      (clamp (k_maxnew_lo K) (k_maxnew_hi K) (opt_or omax 1)) (log s)) as [|p0 pr] eqn:Ep.
+  - (* nothing planned: the first call already is the no-op *)
+    assert (E : exists r, auto K ostride omax odry s = (s, Ok r) /\ ar_status r = 0 /\ ar_job r = None /\ ar_result r = []).
+    { unfold auto. pose proof Hs as Hs'. apply N.eqb_neq in Hs'. rewrite Hs'. unfold auto_spawn. rewrite Ep. cbn [ar_job].
+      eexists. split; [reflexivity|]. cbn. auto. }
+    destruct E as [r [E Hr]]. rewrite E. cbn [fst]. exists r. split; [exact E | exact Hr].
+  - assert (Hp : plan_cuts K (opt_or ostride (k_default_stride K))
+                           (clamp (k_maxnew_lo K) (k_maxnew_hi K) (opt_or omax 1)) (log s) <> []) by (rewrite Ep; discriminate).
+    destruct (auto_creates_planned K ostride omax odry s Hv Hs Hd Hp) as [s' [r [Ha [_ [_ [_ [Hpl Ho]]]]]]].
+    rewrite Ha. cbn [fst]. rewrite Hpl in Ho.
+    pose proof (undone_after K _ _ s s' _ _ Hv Hs Ho) as Hu.
+    rewrite skipn_all2 in Hu by exact Hlen.
+    destruct (auto_noop K ostride omax odry s' Hs Hu) as [r' [E [H1 [H2 [_ H4]]]]].
+    exists r'. auto.
+Qed.
+
+(* ====================================================================================================== *)
+(* ---------- manual checkpoints ---------- *)
+Lemma manual_target_boundary K r l ts tm rule :
+  manual_target K r l = Ok (ts, tm, rule) -> In (ts, tm) (msgs l).
+Proof.
+  unfold manual_target. intros H.
+  destruct (mr_md r), (mr_art r); try discriminate;
+  (destruct (mr_to_mid r) as [m|], (mr_to_seq r) as [q|]; try discriminate;
+   destruct (msgs l) as [|x ms] eqn:Em; try discriminate; rewrite <- Em in *;
+   [ destruct (find (fun p => snd p =? m) (msgs l)) as [[s0 m0]|] eqn:Ef; [|discriminate];
+     apply find_some in Ef; destruct Ef as [Hin Hq]; cbn [snd] in Hq; apply N.eqb_eq in Hq; subst m0;
+     injection H as <- <- _; exact Hin
+   | destruct (find (fun p => fst p =? q) (msgs l)) as [[s0 m0]|] eqn:Ef; [|discriminate];
+     apply find_some in Ef; destruct Ef as [Hin Hq]; cbn [fst] in Hq; apply N.eqb_eq in Hq; subst s0;
+     injection H as <- <- _; exact Hin
+   | destruct ((match mr_stride r with Some x0 => x0 | None => k_default_stride K end) =? 0); [discriminate|];
+     destruct (nlen (msgs l) / _ * _ =? 0); [discriminate|];
+     destruct (nth_error (msgs l) _) as [[s0 m0]|] eqn:En; [|discriminate];
+     injection H as <- <- _; eapply nth_error_In, En ]).
+Qed.
+
+Theorem manual_boundary K r s :
+  match manual K r s with
+  | (s', Err _) => s' = s
+  | (s', Ok (ck, a, ts, tm, rule)) =>
+      In (ts, tm) (msgs (log s))
+      /\ log s' = log s ++ [{| eseq := next_seq (log s); eid := ck; ebody := BCkpt rule a ts (Some tm) |}]
+      /\ exists v, art_read s' a = Some v /\ su_to_seq v = ts
+  end.
+Proof.
+  unfold manual. destruct (manual_target K r (log s)) as [[[ts tm] rule]|e] eqn:Et; [|reflexivity].
+  pose proof (manual_target_boundary K r (log s) ts tm rule Et) as Hin.
+  destruct (mr_art r) as [a|].
+  - destruct (art_read s a) as [v|] eqn:Ea; [|reflexivity].
+    destruct (su_to_seq v =? ts) eqn:Ev; [|reflexivity]. apply N.eqb_eq in Ev.
+    split; [exact Hin|]. split; [rewrite last_id_append; reflexivity|]. exists v. split; [exact Ea | exact Ev].
+  - cbv beta iota zeta delta [put_art]. split; [exact Hin|]. split; [rewrite last_id_append; reflexivity|].
+    eexists. split.
+    + unfold art_read, append. cbn [arts].
+      rewrite art_get_app_fresh by (apply fresh_art_not_key). cbn [su_present]. reflexivity.
+    + reflexivity.
+Qed.
+
+(* a to_seq that is not the seq of a message / a to_message_id that is not the id of a message is refused *)
+Theorem manual_non_boundary_rejected K r s :
+  (forall q, mr_to_seq r = Some q -> ~ In q (map fst (msgs (log s)))) ->
+  (forall m, mr_to_mid r = Some m -> ~ In m (map snd (msgs (log s)))) ->
+  (mr_to_seq r <> None \/ mr_to_mid r <> None) ->
+  exists e, manual K r s = (s, Err e).
+Proof.
+  intros Hq Hm Hsel. unfold manual.
+  destruct (manual_target K r (log s)) as [[[ts tm] rule]|e] eqn:Et; [|eauto].
+  exfalso. pose proof (manual_target_boundary K r (log s) ts tm rule Et) as Hin.
+  unfold manual_target in Et.
+  destruct (mr_md r), (mr_art r); try discriminate;
+  (destruct (mr_to_mid r) as [m|] eqn:Em, (mr_to_seq r) as [q|] eqn:Eq; try discriminate;
+   destruct (msgs (log s)) as [|x ms] eqn:Emsg; try discriminate; rewrite <- Emsg in *;
+   [ destruct (find (fun p => snd p =? m) (msgs (log s))) as [[s0 m0]|] eqn:Ef; [|discriminate];
+     apply find_some in Ef; destruct Ef as [Hi Hx]; cbn [snd] in Hx; apply N.eqb_eq in Hx; subst m0;
+     apply (Hm m eq_refl); apply in_map_iff; exists (s0, m); auto
+   | destruct (find (fun p => fst p =? q) (msgs (log s))) as [[s0 m0]|] eqn:Ef; [|discriminate];
+     apply find_some in Ef; destruct Ef as [Hi Hx]; cbn [fst] in Hx; apply N.eqb_eq in Hx; subst s0;
+     apply (Hq q eq_refl); apply in_map_iff; exists (q, m0); auto
+   | destruct Hsel; congruence ]).
+Qed.
+
+(* ====================================================================================================== *)
+(* ---------- every operation keeps the stream valid (so `valid` holds in every reachable state) ---------- *)
+Lemma run_cut_log K snap stride s p s2 c :
+  run_cut K snap stride s p = Ok (s2, c) ->
+  exists v, s2 = append {| log := log s; arts := arts s ++ [(fresh_art s, v)] |} (ck_frame stride (fresh_art s) p)
+            /\ c = mk_created s2 (fresh_art s) p /\ covers v p.
+Proof.
+  unfold run_cut. destruct (select_base K (log s) snap (pl_seq p)) as [b base_to].
+  assert (Hfin : forall base bootstrap note used,
+    match nth_error (msg_full snap) (upper_bound (msg_full snap) (pl_seq p) - 1) with
+    | None => Err 20
+    | Some (ls, lid, _) =>
+      if (ls =? pl_seq p) && (lid =? pl_mid p) then
+        let slice := map snd (skipn (upper_bound (msg_full snap) (if (bootstrap : bool) then 0 else base_to))
+                                    (firstn (upper_bound (msg_full snap) (pl_seq p)) (msg_full snap))) in
+        let '(s1, a) := put_art s {| su_to_seq := pl_seq p; su_to_mid := Some (pl_mid p); su_base := base;
+                                     su_note := note; su_kind := 2; su_slice := slice; su_base_used := used;
+                                     su_present := true |} in
+        let s2 := append s1 (BCkpt (rule_stride stride) a (pl_seq p) (Some (pl_mid p))) in
+        Ok (s2, {| cr_ck := last_id s2; cr_art := a; cr_seq := pl_seq p; cr_mid := pl_mid p |})
+      else Err 21
+    end = Ok (s2, c) ->
+    exists v, s2 = append {| log := log s; arts := arts s ++ [(fresh_art s, v)] |} (ck_frame stride (fresh_art s) p)
+              /\ c = mk_created s2 (fresh_art s) p /\ covers v p).
+  { intros base bootstrap note used.
+    destruct (nth_error (msg_full snap) (upper_bound (msg_full snap) (pl_seq p) - 1)) as [[[ls lid] x]|]; [|discriminate].
+    destruct ((ls =? pl_seq p) && (lid =? pl_mid p)); [|discriminate].
+    cbv beta iota zeta delta [put_art]. intros H. injection H as <- <-.
+    eexists. split; [reflexivity|]. split; [reflexivity|]. unfold covers. cbn. auto. }
+  destruct (option_map ck_art b) as [a|]; [|exact (Hfin None true 0 false)].
+  destruct (art_read s a) as [v|]; [|exact (Hfin (Some a) true 2 false)].
+  destruct (su_kind v =? 1); [exact (Hfin (Some a) true 1 false) | exact (Hfin (Some a) false 0 true)].
+Qed.
+
+Lemma run_cuts_valid K snap stride : forall ps s acc s' made err,
+  run_cuts K snap stride s ps acc = (s', made, err) -> valid (log s) -> valid (log s').
+Proof.
+  induction ps as [|p ps IH]; intros s acc s' made err H Hv; cbn [run_cuts] in H.
+  - injection H as <- _ _. exact Hv.
+  - destruct (run_cut K snap stride s p) as [[s2 c]|e] eqn:E.
+    + apply run_cut_log in E. destruct E as [v [-> _]]. eapply IH; [exact H|].
+      apply (valid_append {| log := log s; arts := arts s ++ [(fresh_art s, v)] |}). exact Hv.
+    + injection H as <- _ _. exact Hv.
+Qed.
+
+Lemma run_job_valid K j stride planned s : valid (log s) -> valid (log (fst (fst (run_job K j stride planned s)))).
+Proof.
+  intros Hv. unfold run_job.
+  destruct (run_cuts K (log s) stride s (plan_sort planned) []) as [[s1 made] err] eqn:E. cbn [fst].
+  apply valid_append. eapply run_cuts_valid; [exact E | exact Hv].
+Qed.
+
+Lemma auto_spawn_valid K stride maxnew dry s : valid (log s) -> valid (log (fst (auto_spawn K stride maxnew dry s))).
+Proof.
+  intros Hv. unfold auto_spawn. destruct (plan_cuts K stride maxnew (log s)); [exact Hv|].
+  destruct dry; [exact Hv|]. cbn [fst]. apply valid_append, Hv.
+Qed.
+
+Lemma auto_valid K ostride omax odry s : valid (log s) -> valid (log (fst (auto K ostride omax odry s))).
+Proof.
+  intros Hv. unfold auto. destruct (opt_or ostride (k_default_stride K) =? 0); [exact Hv|].
+  pose proof (auto_spawn_valid K (opt_or ostride (k_default_stride K))
+                (clamp (k_maxnew_lo K) (k_maxnew_hi K) (opt_or omax 1)) (opt_orb odry false) s Hv) as H1.
+  destruct (auto_spawn K _ _ _ s) as [s1 r]. cbn [fst] in H1.
+  destruct (ar_job r) as [j|]; [|exact H1].
+  pose proof (run_job_valid K j (opt_or ostride (k_default_stride K)) (ar_planned r) s1 H1) as H2.
+  destruct (run_job K j _ (ar_planned r) s1) as [[s2 made] err]. exact H2.
+Qed.
+
+Lemma sched_valid K ostride omax oblock oexec odry s :
+  valid (log s) -> valid (log (fst (sched K ostride omax oblock oexec odry s))).
+Proof.
+  intros Hv. unfold sched. destruct (opt_or ostride (k_default_stride K) =? 0); [exact Hv|].
+  destruct (plan_cuts K _ _ (log s)) as [|p0 pr] eqn:Ep; [exact Hv|]. rewrite <- Ep.
+  destruct (opt_orb odry false); [exact Hv|].
+  destruct (if opt_orb oblock true then find_inflight K (log s) else None).
+  - cbn [fst]. apply valid_append, Hv.
+  - pose proof (auto_spawn_valid K (opt_or ostride (k_default_stride K))
+                  (clamp (k_maxnew_lo K) (k_maxnew_hi K) (opt_or omax 1)) false s Hv) as H1.
+    destruct (auto_spawn K _ _ false s) as [s1 r]. cbn [fst] in H1.
+    destruct (ar_job r) as [j|]; [|exact H1].
+    assert (H2 : valid (log (append s1 (BDecided 3 (Some j) (plan_cuts K (opt_or ostride (k_default_stride K))
+                   (clamp (k_maxnew_lo K) (k_maxnew_hi K) (opt_or omax 1)) (log s))
+                   (opt_or ostride (k_default_stride K)) (clamp (k_maxnew_lo K) (k_maxnew_hi K) (opt_or omax 1))
+                   (opt_orb oblock true) (opt_orb oexec true) (nlen (msgs (log s)))))))
+      by (apply valid_append, H1).
+    destruct (opt_orb oexec true); [|exact H2].
+    match goal with |- context [run_job K j ?st ?pl ?s2] =>
+      pose proof (run_job_valid K j st pl s2 H2) as H3; destruct (run_job K j st pl s2) as [[s3 made] err] end.
+    exact H3.
+Qed.
+
+Lemma step_valid K s o : valid (log s) -> valid (log (fst (step K s o))).
+Proof.
+  intros Hv. destruct o; cbn [step fst]; try exact Hv; try (apply valid_append, Hv).
+  - pose proof (manual_boundary K r s) as H. destruct (manual K r s) as [s' [[[[[ck a] ts] tm] rule]|e]]; cbn [fst].
+    + destruct H as [_ [Hl _]]. unfold valid. rewrite Hl, map_app. cbn [map eseq].
+      apply ssorted_app_one; [exact Hv | apply next_seq_bound, Hv].
+    + subst s'. exact Hv.
+  - pose proof (auto_valid K stride maxnew dry s Hv) as H. destruct (auto K stride maxnew dry s). exact H.
+  - pose proof (sched_valid K stride maxnew block exec dry s Hv) as H. destruct (sched K stride maxnew block exec dry s). exact H.
+Qed.
+
+Theorem reachable_valid K : forall ops s acc, valid (log s) -> valid (log (fst (run_ops K s ops acc))).
+Proof.
+  induction ops as [|o ops IH]; intros s acc Hv; cbn [run_ops]; [exact Hv|].
+  pose proof (step_valid K s o Hv) as H. destruct (step K s o) as [s' out]. apply IH, H.
+Qed.
+
+(* ---------- non-vacuity for auto / idempotence / manual ---------- *)
+Definition demo7_ops : list op := [OMsg 0 1; OMsg 1 2; OOther; OMsg 0 3; OMsg 1 4; OMsg 0 5; OMsg 1 6; OMsg 0 7].
+Definition demo7 : st := fst (run_ops real_consts st0 demo7_ops []).
+Definition demo7_plan2 : list plan :=
+  [{| pl_ord := 6; pl_seq := 7; pl_mid := 8 |}; {| pl_ord := 4; pl_seq := 5; pl_mid := 6 |}].
+
+Lemma demo7_valid : valid (log demo7).
+Proof. apply reachable_valid, valid_st0. Qed.
+
+Lemma demo7_facts :
+  plan_cuts real_consts 2 (clamp 1 32 2) (log demo7) = demo7_plan2
+  /\ map plan_of (undone real_consts 2 (log demo7)) = demo7_plan2 ++ [{| pl_ord := 2; pl_seq := 2; pl_mid := 3 |}]
+  /\ map (fun e => enc_body (ebody e)) (skipn 9 (log (fst (auto real_consts (Some 2) (Some 2) None demo7))))
+     = [ [3; 1; 2; 2; 6; 7; 8; 4; 5; 6]; [2; 3; 1; 5; 1; 6]; [2; 3; 2; 7; 1; 8]; [4; 1; 0; 2; 11; 1; 5; 6; 12; 2; 7; 8] ]
+  /\ plan_cuts real_consts 2 (clamp 1 32 2) (log (fst (auto real_consts (Some 2) (Some 2) None demo7)))
+     = [{| pl_ord := 2; pl_seq := 2; pl_mid := 3 |}]
+  /\ (length (undone real_consts 2 (log demo7)) <= N.to_nat (clamp 1 32 32))%nat.
+Proof. repeat split; vm_compute; try reflexivity. lia. Qed.
+
+Definition demo_manual_req : manual_req :=
+  {| mr_md := Some 0; mr_art := None; mr_to_mid := None; mr_to_seq := Some 3; mr_stride := None |}.
+Lemma demo_manual_non_boundary :
+  (forall q, mr_to_seq demo_manual_req = Some q -> ~ In q (map fst (msgs (log demo7))))
+  /\ manual real_consts demo_manual_req demo7 = (demo7, Err 5).
+Proof.
+  split; [|vm_compute; reflexivity]. intros q H. injection H as <-. vm_compute. intuition discriminate.
+Qed.
